@@ -31,7 +31,11 @@
 (*            cppcheck: every step must be the spec's Rewrite (the driver   *)
 (*            changed exactly the rendering component the spec says, with   *)
 (*            a declaration-respecting order), and every step must satisfy  *)
-(*            StepOK; the deviating steps are written out with a class key. *)
+(*            StepOK; the deviating steps are written out with a class key  *)
+(*            <rewrite kind>:<id>:<direction>, direction = appeared,        *)
+(*            disappeared, moved (same message at another position), path   *)
+(*            (same message and position, other secondary locations),       *)
+(*            changed (another message).                                    *)
 (***************************************************************************)
 EXTENDS Integers, Sequences, FiniteSets, TLC, Json, IOUtils, SequencesExt
 
@@ -105,11 +109,13 @@ Apply(k, n, r) ==
 (*            type ("can be declared as pointer to const"); it cannot be    *)
 (*            followed where the pointer is hidden in the alias, and        *)
 (*            cppcheck documents that it keeps silent there                 *)
-(*  macro   (ExpandMacro) style findings about how an expression is         *)
-(*            WRITTEN, which cppcheck documents not to give for text that   *)
-(*            comes out of a macro (the written text is the macro's, and    *)
-(*            may differ per configuration): duplicateExpression,           *)
-(*            knownConditionTrueFalse, and unknownMacro itself              *)
+(*  macro   (ExpandMacro) cppcheck documents that it does not criticise how *)
+(*            text that comes out of a macro is WRITTEN (the text is the    *)
+(*            macro's and may differ per configuration).  Hence exempt:     *)
+(*            style findings located INSIDE the pasted replacement text     *)
+(*            (same expression on both sides, same value in both branches,  *)
+(*            ...: see Compared), knownConditionTrueFalse (not given for a  *)
+(*            condition that contains macro text), and unknownMacro itself  *)
 (*  templ   (HandInstantiate) templateRecursion: about the template itself  *)
 
 ShadowIds == {"shadowVariable", "shadowArgument", "shadowFunction", "shadowMember"}
@@ -118,12 +124,16 @@ Exempt(k) ==
     [] k \in RenameKinds -> ShadowIds \cup {"funcArgNamesDifferent", "funcArgOrderDifferent"}
     [] k \in OrderKinds  -> ShadowIds
     [] k \in {"InlineTypedef", "InlineUsing"} -> {"constVariablePointer", "constParameterPointer"}
-    [] k = "ExpandMacro" -> {"unknownMacro", "duplicateExpression", "knownConditionTrueFalse"}
+    [] k = "ExpandMacro" -> {"unknownMacro", "knownConditionTrueFalse"}
     [] k = "HandInstantiate" -> {"templateRecursion"}
 
 \* what of an observation is compared across a step of kind k.  An observation is a set of records with at least
-\* id, key (projected identity), mk (identity without locations), indef (located inside the expanded entity)
-Compared(obs, k, table) == {f \in obs : (table => f.id \notin Exempt(k)) /\ ~(k \in ExpandKinds /\ f.indef)}
+\* id, key (projected identity), mk (identity without locations), and for the expansion kinds: indef (located inside
+\* the definition of the expanded entity), ingroup (located inside a use site of it), sev (severity)
+Compared(obs, k, table) ==
+  {f \in obs : /\ table => f.id \notin Exempt(k)
+               /\ ~(k \in ExpandKinds /\ f.indef)
+               /\ ~(table /\ k = "ExpandMacro" /\ f.ingroup /\ f.sev = "style")}
 Keys(fs) == {f.key : f \in fs}
 
 \* THE step predicate: rewrite(s) of kind k between two observations
@@ -297,7 +307,10 @@ Deviations(i, s) ==
       A == Compared(ObsSet(p, st.o), st.k, TRUE)
       lost == {f \in B : f.key \notin Keys(A)}
       gained == {f \in A : f.key \notin Keys(B)}
-      Dir(id) == IF \E f \in lost, g \in gained : f.id = id /\ g.id = id /\ f.mk = g.mk THEN "moved"
+      \* pk = identity with the primary location only (the other locations are the path that led there)
+      Pk(f) == IF "pk" \in DOMAIN f THEN f.pk ELSE f.key
+      Dir(id) == IF \E f \in lost, g \in gained : f.id = id /\ g.id = id /\ Pk(f) = Pk(g) THEN "path"
+                 ELSE IF \E f \in lost, g \in gained : f.id = id /\ g.id = id /\ f.mk = g.mk THEN "moved"
                  ELSE IF (\E f \in lost : f.id = id) /\ (\E g \in gained : g.id = id) THEN "changed"
                  ELSE IF \E f \in lost : f.id = id THEN "disappeared" ELSE "appeared"
   IN IF StepOK(st.k, ObsSet(p, OBefore(i, s)), ObsSet(p, st.o), TRUE) THEN {}
